@@ -9,6 +9,7 @@ import (
 	"fmt"
 	"math/rand"
 	"os"
+	"runtime"
 	"strconv"
 	"sync"
 	"time"
@@ -84,9 +85,15 @@ func main() {
 			var c verifhook.Case
 			select {
 			case c = <-done:
+				verifhook.Unmark(r)
 			case <-time.After(caseTimeout):
 				c = verifhook.Case{In: []int64{0}, Obs: []int64{verifhook.HangMark}, Note: "hang"}
 				hung = true
+				// where every goroutine is, for the report
+				buf := make([]byte, 8<<20)
+				buf = buf[:runtime.Stack(buf, true)]
+				buf = append([]byte("progress marks of the case:\n"+verifhook.Marks(r)+"\n"), buf...)
+				_ = os.WriteFile(fmt.Sprintf("/verif/.work/hang_%d_%d_%d.txt", kind, seed, start+i), buf, 0o644)
 			}
 			c.Kind = kind
 			lines[i] = verifhook.Line(c)
